@@ -81,7 +81,7 @@ t += (2,)
 print(t, u)
 st = {1}
 su = st
-st |= {2}; st &= {1, 2}; st ^= {3}; st -= {1}
+st |= {2, 5}; print(sorted(st)); st ^= {1, 3}; print(sorted(st)); st &= {2, 3, 9}; print(sorted(st)); st -= {9, 2}
 print(sorted(st), su is st)
 d = {"a": 1}
 d.update({"b": 2})
